@@ -4,7 +4,7 @@
    signals with a value table, the kind only; the full statement is
    Acme.C10.Proofs.import_signal_faithful_full_statement. *)
 From Coq Require Import String ZArith List.
-From Acme.C10 Require Import DbcDoc BusModel Import Bits BitsProofs Proofs ProofsEnum ProofsLayout ProofsFaithful ProofsMux ProofsExtMux ProofsDecode ProofsIds ProofsEnumMux.
+From Acme.C10 Require Import DbcDoc BusModel Import Bits BitsProofs Proofs ProofsEnum ProofsLayout ProofsFaithful ProofsMux ProofsExtMux ProofsDecode ProofsIds ProofsEnumMux ProofsAttrs.
 Import ListNotations.
 Open Scope Z_scope.
 
@@ -167,3 +167,28 @@ Theorem import_enum_all_depths : forall d b, import d = Ok b ->
     (d_messages d) (b_messages b).
 Proof. exact ProofsEnumMux.import_enum_all_depths. Qed.
 Print Assumptions import_enum_all_depths.
+
+(* importAttributes, bus level: the definitions the importer uses come from a BA_DEF_ and the BA_DEF_DEF_ of
+   the same name through `import_attr_def`; the attribute assignments of the bus are exactly the BA_ lines
+   without object, in file order, read with `attr_value`, later lines of one name replacing earlier ones;
+   every such value conforms to its definition (otherwise the import fails) *)
+Theorem import_bus_attributes : forall d b, import d = Ok b ->
+  exists amap, def_map d = Ok amap /\
+    b_attrs b = fold_left (gen_step amap) (d_attrvals d) [] /\
+    (forall av ad, In av (d_attrvals d) -> av_kind av = OGeneral -> lookup String.eqb (av_name av) amap = Some ad ->
+       exists v, attr_value ad av = Ok v /\ check_value ad v = true) /\
+    (forall name ad, In (name, ad) amap ->
+       exists a df, In a (d_attrs d) /\ at_name a = name /\ In df (d_attrdefs d) /\ ad_name df = name /\
+                    import_attr_def a df = Ok ad).
+Proof. exact ProofsAttrs.import_bus_attributes. Qed.
+Print Assumptions import_bus_attributes.
+
+(* numeric attribute values are accepted whether written as integer or decimal: the value read from each
+   literal form *)
+Theorem attr_value_literals : forall av,
+  (forall d mn mx, av_type av = VInt -> attr_value (DefFloat d mn mx) av = Ok (ValFloat (fl_of_Z (av_int av)))) /\
+  (forall d mn mx, av_type av = VFloat -> attr_value (DefFloat d mn mx) av = Ok (ValFloat (av_fl av))) /\
+  (forall d mn mx h, av_type av = VInt -> attr_value (DefInt d mn mx h) av = Ok (ValInt (av_int av))) /\
+  (forall d mn mx h, av_type av = VHex -> attr_value (DefInt d mn mx h) av = Ok (ValInt (av_hex av))).
+Proof. exact ProofsAttrs.attr_value_literals. Qed.
+Print Assumptions attr_value_literals.
